@@ -1,1 +1,526 @@
-fn main() { eprintln!("not built yet"); std::process::exit(2); }
+//! C19 (sequential part) — the StormLib-style C API is memory-safe and agrees with the Rust API
+//! on any single-threaded history.
+//!
+//! Explicit-state search over the REAL `SFile*` functions (ffi/storm-ffi/src/lib.rs compiled
+//! unchanged by the `storm-alt` crate).  A state is a history of symbolic calls; every history
+//! is executed in a FRESH forked process (the handle tables are process-global statics), with a
+//! timeout (hang => violation) and crash detection (signal => violation).  Successor histories
+//! are deduplicated on a canonical key of the reference model reached.
+mod acts;
+mod exec;
+mod model;
+mod util;
+
+use acts::*;
+use exec::*;
+use serde_json::{json, Value};
+use std::collections::{BTreeMap, HashSet};
+use std::time::{Duration, Instant};
+use vcore::*;
+use wow_mpq::{ArchiveBuilder, AttributesOption, FormatVersion, ListfileOption};
+
+const HANG_SECS: u64 = 4;
+const FRONTIER_DIR: &str = "/verif/.scratch/c19-frontier";
+
+fn find_act(alpha: &[Act], a: &Act) -> u16 {
+    alpha.iter().position(|x| x == a).unwrap_or_else(|| panic!("initial-state action {a:?} not in the alphabet")) as u16
+}
+
+/// the initial states, each given as the history that establishes it
+fn initial_states(alpha: &[Act]) -> Vec<(&'static str, Vec<u16>)> {
+    let f = |a: Act| find_act(alpha, &a);
+    vec![
+        ("no archive open", vec![]),
+        ("one read-only archive open", vec![f(Act::OpenArchive(PathSel::Good1))]),
+        ("one created mutable archive open holding one added file", vec![f(Act::CreateArchive2(C2::V1Listfile)), f(Act::Add(Sel::First, 1, 3, false, 0x02))]),
+        (
+            "two read-only archives open, each with a file handle and a find handle",
+            vec![
+                f(Act::OpenArchive(PathSel::Good1)),
+                f(Act::OpenArchive(PathSel::Good2)),
+                f(Act::OpenFile(Sel::First, 0)),
+                f(Act::OpenFile(Sel::Last, 0)),
+                f(Act::FindFirst(Sel::First, Some(0))),
+                f(Act::FindFirst(Sel::Last, Some(0))),
+            ],
+        ),
+    ]
+}
+
+fn build_fixtures(s: &Scratch) -> Fx {
+    let dir = s.0.clone();
+    ArchiveBuilder::new()
+        .version(FormatVersion::V2)
+        .block_size(0)
+        .listfile_option(ListfileOption::Generate)
+        .attributes_option(AttributesOption::GenerateFull)
+        .add_file_data(b"hello world".to_vec(), "readme.txt")
+        .add_file_data(gen::content("period251", 1300, 512, 3), "data\\blob.bin")
+        .add_file_data(b"Z".to_vec(), "x")
+        .add_file_data(vec![], "empty.dat")
+        .build(dir.join("good1.mpq"))
+        .expect("good1");
+    ArchiveBuilder::new()
+        .version(FormatVersion::V1)
+        .block_size(3)
+        .listfile_option(ListfileOption::Generate)
+        .add_file_data(b"a different readme, 27 bytes".to_vec(), "readme.txt")
+        .add_file_data(gen::content("half", 300, 4096, 9), "other\\thing.bin")
+        .build(dir.join("good2.mpq"))
+        .expect("good2");
+    std::fs::write(dir.join("garbage.bin"), gen::content("incompressible", 3000, 512, 5)).unwrap();
+    let g1 = std::fs::read(dir.join("good1.mpq")).unwrap();
+    std::fs::write(dir.join("truncated.mpq"), &g1[..20]).unwrap();
+    std::fs::write(dir.join("src1.txt"), b"seventeen bytes!!").unwrap();
+    std::fs::write(dir.join("src2.bin"), gen::content("period2", 900, 512, 2)).unwrap();
+    Fx { case: dir.join("case"), dir }
+}
+
+// ---------------------------------------------------------------- one history in a fresh process
+
+struct ChildOut {
+    result: Option<Value>,
+    hung: bool,
+    signal: Option<i32>,
+    exit: Option<i32>,
+    last_mark: Option<(String, String)>,
+    panic: Option<(String, String)>,
+}
+
+fn write_fd(fd: i32, s: &str) {
+    let mut off = 0;
+    let b = s.as_bytes();
+    while off < b.len() {
+        let n = unsafe { libc::write(fd, b[off..].as_ptr() as *const libc::c_void, b.len() - off) };
+        if n <= 0 {
+            break;
+        }
+        off += n as usize;
+    }
+}
+
+/// child side: never returns
+fn child_main(fd: i32, fx: &Fx, alpha: &[Act], hist: &[u16], judge_from: usize) -> ! {
+    std::panic::set_hook(Box::new(move |info| {
+        let msg = if let Some(s) = info.payload().downcast_ref::<&str>() {
+            s.to_string()
+        } else if let Some(s) = info.payload().downcast_ref::<String>() {
+            s.clone()
+        } else {
+            "<non-string panic>".into()
+        };
+        let file = info.location().map(|l| l.file().to_string()).unwrap_or_default();
+        let file = file.strip_prefix("/repo/").unwrap_or(&file).to_string();
+        write_fd(fd, &format!("X\t{}\t{}\n", file, msg.replace(['\n', '\t'], " ")));
+    }));
+    let r = std::panic::catch_unwind(std::panic::AssertUnwindSafe(|| {
+        let mut cx = Ctx::new(fx, fd);
+        let mut unreplayable = None;
+        for (i, id) in hist.iter().enumerate() {
+            let a = &alpha[*id as usize];
+            cx.judging = i >= judge_from;
+            cx.phase = if cx.judging { "tip" } else { "prefix" };
+            if !cx.enabled(a) {
+                unreplayable = Some(a.label());
+                break;
+            }
+            if i + 1 == hist.len() {
+                cx.tip = a.func().to_string();
+            }
+            cx.step(a);
+        }
+        if cx.tip.is_empty() {
+            cx.tip = "the initial state".into();
+        }
+        cx.judging = true;
+        let key = cx.key();
+        let enabled: Vec<u16> = (0..alpha.len()).filter(|i| cx.enabled(&alpha[*i])).map(|i| i as u16).collect();
+        let objs = json!({"archives": cx.m.archs.len(), "files": cx.m.files.len(), "finds": cx.m.finds.len()});
+        cx.probe();
+        let out = json!({
+            "key": key, "enabled": enabled, "viols": cx.viols, "counters": cx.counters, "trace": cx.trace,
+            "calls": cx.calls, "unreplayable": unreplayable, "objs": objs,
+        });
+        write_fd(fd, &format!("R\t{}\n", out));
+    }));
+    unsafe { libc::_exit(if r.is_ok() { 0 } else { 101 }) }
+}
+
+fn run_in_child(fx: &Fx, alpha: &[Act], hist: &[u16], judge_from: usize) -> ChildOut {
+    let _ = std::fs::remove_dir_all(&fx.case);
+    std::fs::create_dir_all(fx.case.join("out")).expect("case dir");
+    let mut fds = [0i32; 2];
+    assert_eq!(unsafe { libc::pipe(fds.as_mut_ptr()) }, 0, "pipe");
+    let pid = unsafe { libc::fork() };
+    assert!(pid >= 0, "fork");
+    if pid == 0 {
+        unsafe { libc::close(fds[0]) };
+        child_main(fds[1], fx, alpha, hist, judge_from);
+    }
+    unsafe { libc::close(fds[1]) };
+    let deadline = Instant::now() + Duration::from_secs(HANG_SECS);
+    let mut buf: Vec<u8> = vec![];
+    let mut hung = false;
+    loop {
+        let now = Instant::now();
+        if now >= deadline {
+            hung = true;
+            break;
+        }
+        let ms = (deadline - now).as_millis().min(200) as i32;
+        let mut p = libc::pollfd { fd: fds[0], events: libc::POLLIN, revents: 0 };
+        let rc = unsafe { libc::poll(&mut p, 1, ms) };
+        if rc > 0 {
+            let mut tmp = [0u8; 8192];
+            let n = unsafe { libc::read(fds[0], tmp.as_mut_ptr() as *mut libc::c_void, tmp.len()) };
+            if n == 0 {
+                break;
+            }
+            if n > 0 {
+                buf.extend_from_slice(&tmp[..n as usize]);
+            } else if std::io::Error::last_os_error().kind() != std::io::ErrorKind::Interrupted {
+                break;
+            }
+        }
+    }
+    if hung {
+        unsafe { libc::kill(pid, libc::SIGKILL) };
+    }
+    let mut status = 0i32;
+    unsafe { libc::waitpid(pid, &mut status, 0) };
+    unsafe { libc::close(fds[0]) };
+    let mut out = ChildOut { result: None, hung, signal: None, exit: None, last_mark: None, panic: None };
+    if libc::WIFSIGNALED(status) {
+        out.signal = Some(libc::WTERMSIG(status));
+    } else if libc::WIFEXITED(status) {
+        out.exit = Some(libc::WEXITSTATUS(status));
+    }
+    for line in String::from_utf8_lossy(&buf).lines() {
+        let mut it = line.splitn(3, '\t');
+        match (it.next(), it.next(), it.next()) {
+            (Some("P"), Some(ph), Some(l)) => out.last_mark = Some((ph.to_string(), l.to_string())),
+            (Some("X"), Some(f), Some(m)) => out.panic = Some((f.to_string(), m.to_string())),
+            (Some("R"), Some(rest), more) => {
+                let s = match more {
+                    Some(m) => format!("{rest}\t{m}"),
+                    None => rest.to_string(),
+                };
+                out.result = serde_json::from_str(&s).ok();
+            }
+            _ => {}
+        }
+    }
+    out
+}
+
+// ---------------------------------------------------------------- the space of one BFS level
+
+struct FState {
+    init: usize,
+    hist: Vec<u16>,
+    enabled: Vec<u16>,
+}
+struct Level {
+    _scratch: Scratch,
+    fx: Fx,
+    alpha: Vec<Act>,
+    inits: Vec<(&'static str, Vec<u16>)>,
+    states: Vec<FState>,
+    starts: Vec<u64>, // prefix sums of enabled counts
+    init_mode: bool,
+}
+impl Level {
+    fn load(arg: &str, tier: Tier, init_mode: bool) -> Level {
+        let alpha = alphabet(tier == Tier::Thorough);
+        let inits = initial_states(&alpha);
+        let scratch = Scratch::new("c19");
+        let fx = build_fixtures(&scratch);
+        let mut states = vec![];
+        if init_mode {
+            for (i, (_, h)) in inits.iter().enumerate() {
+                states.push(FState { init: i, hist: h.clone(), enabled: vec![0] });
+            }
+        } else {
+            let v: Value = serde_json::from_str(&std::fs::read_to_string(arg).expect("frontier file")).expect("frontier json");
+            for s in v["states"].as_array().unwrap() {
+                let ids = |k: &str| s[k].as_array().unwrap().iter().map(|x| x.as_u64().unwrap() as u16).collect::<Vec<_>>();
+                states.push(FState { init: s["init"].as_u64().unwrap() as usize, hist: ids("hist"), enabled: ids("en") });
+            }
+        }
+        let mut starts = vec![];
+        let mut n = 0u64;
+        for s in &states {
+            starts.push(n);
+            n += s.enabled.len() as u64;
+        }
+        starts.push(n);
+        Level { _scratch: scratch, fx, alpha, inits, states, starts, init_mode }
+    }
+    fn decode(&self, i: u64) -> (usize, Vec<u16>) {
+        let s = self.starts.partition_point(|x| *x <= i) - 1;
+        let mut h = self.states[s].hist.clone();
+        if !self.init_mode {
+            h.push(self.states[s].enabled[(i - self.starts[s]) as usize]);
+        }
+        (s, h)
+    }
+    fn labels(&self, h: &[u16]) -> Vec<String> {
+        h.iter().map(|i| self.alpha[*i as usize].label()).collect()
+    }
+}
+
+impl Space for Level {
+    fn len(&self) -> u64 {
+        *self.starts.last().unwrap()
+    }
+    fn case_timeout(&self) -> u64 {
+        HANG_SECS * 3 + 20
+    }
+    fn describe(&self, i: u64) -> Value {
+        let (s, h) = self.decode(i);
+        let st = &self.states[s];
+        let il = self.inits[st.init].1.len();
+        if self.init_mode {
+            json!({"initial": self.inits[st.init].0, "prefix": [], "call": "(initial history)", "initial_history": self.labels(&h)})
+        } else {
+            json!({"initial": self.inits[st.init].0, "prefix": self.labels(&h[il..h.len() - 1]), "call": self.alpha[*h.last().unwrap() as usize].label()})
+        }
+    }
+    fn run(&self, i: u64) -> CaseResult {
+        let (_, h) = self.decode(i);
+        let mut r = CaseResult::new();
+        r.nontrivial = true;
+        r.key = format!("{:?}", h);
+        let judge_from = if self.init_mode { 0 } else { h.len() - 1 };
+        let o = run_in_child(&self.fx, &self.alpha, &h, judge_from);
+        let tip_label = h.last().map(|x| self.alpha[*x as usize].label()).unwrap_or("(empty history)".into());
+        r.count("transitions", if self.init_mode { h.len() as u64 } else { 1 });
+        let at = |o: &ChildOut| match &o.last_mark {
+            Some((ph, l)) if ph == "tip" => l.replace(".first", ".live").replace(".last", ".live"),
+            Some((ph, l)) => format!("{ph}: {l}"),
+            None => "before the first call".into(),
+        };
+        match &o.result {
+            Some(v) => {
+                if let Some(u) = v["unreplayable"].as_str() {
+                    panic!("history not replayable at {u}: {:?}", self.labels(&h));
+                }
+                for x in v["viols"].as_array().cloned().unwrap_or_default() {
+                    r.viol(x[0].as_str().unwrap_or(""), format!("{} | trace={}", x[1].as_str().unwrap_or(""), v["trace"]));
+                }
+                for (k, n) in v["counters"].as_object().cloned().unwrap_or_default() {
+                    r.count(&k, n.as_u64().unwrap_or(0));
+                }
+                r.count("api_calls_executed_including_replayed_prefixes", v["calls"].as_u64().unwrap_or(0));
+                let last = v["trace"].as_array().and_then(|t| t.last()).and_then(|x| x.as_str()).unwrap_or("").to_string();
+                let f = h.last().map(|x| self.alpha[*x as usize].func()).unwrap_or("init");
+                r.outcome = format!("{f}:{}", last.rsplit(" -> ").next().unwrap_or("").split(',').next().unwrap_or(""));
+                r.payload = Some(json!({"k": v["key"], "e": v["enabled"], "o": v["objs"]}));
+            }
+            None if o.hung => {
+                r.outcome = "hang".into();
+                r.viol(format!("{} does not return (no result within the hang timeout: deadlock or unbounded loop)", at(&o)), format!("history={:?} timeout={}s", self.labels(&h), HANG_SECS));
+            }
+            None => {
+                r.outcome = "crash".into();
+                let how = match (o.signal, o.exit) {
+                    (Some(s), _) => format!("killed by signal {s}"),
+                    (_, Some(e)) => format!("exit status {e}"),
+                    _ => "unknown end".into(),
+                };
+                match &o.panic {
+                    Some((file, msg)) => r.viol(format!("{} under {}", panic_class(file, msg), at(&o).split('(').next().unwrap_or("")), format!("process {how}; at {}; history={:?}; panic at {file}: {msg}", at(&o), self.labels(&h))),
+                    None => r.viol(format!("process dies in {} ({})", at(&o).split('(').next().unwrap_or(""), if o.signal.is_some() { "signal" } else { "exit" }), format!("process {how}; at {}; history={:?}", at(&o), self.labels(&h))),
+                }
+            }
+        }
+        let _ = tip_label;
+        r
+    }
+}
+
+fn build(name: &str, arg: &str, tier: Tier) -> Box<dyn Space> {
+    match name {
+        "init" => Box::new(Level::load(arg, tier, true)),
+        "level" => Box::new(Level::load(arg, tier, false)),
+        _ => panic!("space {name}"),
+    }
+}
+
+// ---------------------------------------------------------------- stand-alone reproduction
+
+/// `c19 --history <tier> <initial index> <id-or-label;id-or-label;...>` : run one history and print every call
+fn repro(args: &[String]) {
+    let tier = if args[0] == "thorough" { Tier::Thorough } else { Tier::Quick };
+    let alpha = alphabet(tier == Tier::Thorough);
+    let inits = initial_states(&alpha);
+    let scratch = Scratch::new("c19r");
+    let fx = build_fixtures(&scratch);
+    let init: usize = args[1].parse().expect("initial index");
+    let mut h = inits[init].1.clone();
+    for t in args.get(2).map(|s| s.as_str()).unwrap_or("").split(';').filter(|t| !t.is_empty()) {
+        match t.parse::<u16>() {
+            Ok(i) => h.push(i),
+            Err(_) => h.push(alpha.iter().position(|a| a.label() == t).unwrap_or_else(|| panic!("no action labelled {t}")) as u16),
+        }
+    }
+    let o = run_in_child(&fx, &alpha, &h, 0);
+    println!("initial: {}", inits[init].0);
+    match &o.result {
+        Some(v) => {
+            for t in v["trace"].as_array().unwrap() {
+                println!("  {}", t.as_str().unwrap());
+            }
+            println!("key: {}", v["key"]);
+            for x in v["viols"].as_array().unwrap() {
+                println!("VIOLATION {} :: {}", x[0], x[1]);
+            }
+        }
+        None => println!("no result: hung={} signal={:?} exit={:?} last={:?} panic={:?}", o.hung, o.signal, o.exit, o.last_mark, o.panic),
+    }
+}
+
+fn main() {
+    let args: Vec<String> = std::env::args().collect();
+    if let Some(p) = args.iter().position(|a| a == "--history") {
+        repro(&args[p + 1..]);
+        return;
+    }
+    if args.iter().any(|a| a == "--rustapi") {
+        // triage helper: the same add through the Rust API alone
+        use wow_mpq::compression::CompressionMethod;
+        let scratch = Scratch::new("c19t");
+        let fx = build_fixtures(&scratch);
+        for (comp, src) in [(CompressionMethod::None, 2), (CompressionMethod::Zlib, 2), (CompressionMethod::Zlib, 1), (CompressionMethod::None, 1)] {
+            let p = scratch.path("t.mpq");
+            let _ = std::fs::remove_file(&p);
+            ArchiveBuilder::new().version(FormatVersion::V1).block_size(3).listfile_option(ListfileOption::Generate).build(&p).unwrap();
+            let mut m = wow_mpq::MutableArchive::open(&p).unwrap();
+            let r = m.add_file(fx.src(src), "added\\one.txt", wow_mpq::AddFileOptions::new().compression(comp).replace_existing(true));
+            let rd = m.read_file("added\\one.txt");
+            println!("{comp:?} src{src}: add={:?} read_before_flush={:?} size={:?}", r.is_ok(), rd.as_ref().map(|d| d.len()).map_err(|e| e.to_string()), m.find_file("added\\one.txt").ok().flatten().map(|f| (f.file_size, f.compressed_size, f.flags)));
+            let _ = m.flush();
+            let rd = m.read_file("added\\one.txt");
+            println!("   after flush: read={:?}", rd.as_ref().map(|d| d.len()).map_err(|e| e.to_string()));
+            drop(m);
+            let mut a = wow_mpq::Archive::open(&p).unwrap();
+            println!("   reopened: read={:?}", a.read_file("added\\one.txt").as_ref().map(|d| d.len()).map_err(|e| e.to_string()));
+        }
+        return;
+    }
+    if args.iter().any(|a| a == "--actions") {
+        for (i, a) in alphabet(args.iter().any(|a| a == "thorough")).iter().enumerate() {
+            println!("{i}\t{}", a.label());
+        }
+        return;
+    }
+    let Mode::Supervisor(mut c) = start("C19", "model_checking", build) else { return };
+    let tier = c.tier;
+    let alpha = alphabet(tier == Tier::Thorough);
+    let inits = initial_states(&alpha);
+    let max_depth: usize = std::env::var("C19_DEPTH").ok().and_then(|s| s.parse().ok()).unwrap_or(tier.pick(3, 4));
+    let _ = std::fs::create_dir_all(FRONTIER_DIR);
+
+    let mut seen: HashSet<String> = HashSet::new();
+    let mut frontier: Vec<FState> = vec![];
+    let mut max_objs = [0u64; 3];
+    let absorb_objs = |o: &Value, mx: &mut [u64; 3]| {
+        for (i, k) in ["archives", "files", "finds"].iter().enumerate() {
+            mx[i] = mx[i].max(o[*k].as_u64().unwrap_or(0));
+        }
+    };
+    let payloads = c.run_space("init", "");
+    for (i, p) in payloads {
+        let key = p["k"].as_str().unwrap_or("").to_string();
+        absorb_objs(&p["o"], &mut max_objs);
+        if seen.insert(key) {
+            frontier.push(FState { init: i as usize, hist: inits[i as usize].1.clone(), enabled: p["e"].as_array().unwrap().iter().map(|x| x.as_u64().unwrap() as u16).collect() });
+        }
+    }
+    let mut states_total = frontier.len() as u64;
+    let mut per_level = vec![json!({"depth": 0, "histories": inits.len(), "new_states": frontier.len()})];
+    let mut hung_labels: BTreeMap<String, u64> = BTreeMap::new();
+    let mut pruned = 0u64;
+    let mut samples = vec![];
+    let mut depth_done = 0;
+    for depth in 1..=max_depth {
+        if frontier.is_empty() {
+            break;
+        }
+        // calls that were seen to hang are executed from one state per level only
+        let mut kept: BTreeMap<String, u64> = BTreeMap::new();
+        for s in frontier.iter_mut() {
+            s.enabled.retain(|id| {
+                let l = alpha[*id as usize].label_class();
+                if hung_labels.contains_key(&l) {
+                    let k = kept.entry(l).or_insert(0);
+                    *k += 1;
+                    if *k > 1 {
+                        pruned += 1;
+                        return false;
+                    }
+                }
+                true
+            });
+        }
+        let f = format!("{}/{}-L{}.json", FRONTIER_DIR, tier.as_str(), depth);
+        let v = json!({"states": frontier.iter().map(|s| json!({"init": s.init, "hist": s.hist, "en": s.enabled})).collect::<Vec<_>>()});
+        std::fs::write(&f, v.to_string()).expect("frontier file");
+        let lvl = Level::load(&f, tier, false);
+        let before_viol = c.agg.viols.len();
+        let payloads = c.run_space("level", &f);
+        for fv in &c.agg.viols[before_viol..] {
+            if fv.symptom.contains("does not return") {
+                *hung_labels.entry(fv.desc["call"].as_str().unwrap_or("").replace(".first", ".live").replace(".last", ".live")).or_insert(0) += 1;
+            }
+        }
+        let mut next = vec![];
+        let n_hist = lvl.len();
+        for (i, p) in payloads {
+            let key = p["k"].as_str().unwrap_or("").to_string();
+            absorb_objs(&p["o"], &mut max_objs);
+            if seen.insert(key.clone()) {
+                let (s, h) = lvl.decode(i);
+                if samples.len() < 8 && (next.len() % 97 == 5 || depth == 1 && next.len() < 2) {
+                    samples.push(json!({"history": lvl.labels(&h), "initial": inits[lvl.states[s].init].0, "state_key": key}));
+                }
+                next.push(FState { init: lvl.states[s].init, hist: h, enabled: p["e"].as_array().unwrap().iter().map(|x| x.as_u64().unwrap() as u16).collect() });
+            }
+        }
+        eprintln!("C19 depth {depth}: {} states expanded, {} histories executed, {} new states", frontier.len(), n_hist, next.len());
+        per_level.push(json!({"depth": depth, "states_expanded": frontier.len(), "histories": n_hist, "new_states": next.len()}));
+        states_total += next.len() as u64;
+        frontier = next;
+        depth_done = depth;
+    }
+    let transitions = c.agg.counters.get("transitions").copied().unwrap_or(0);
+    c.extra_cov.insert("states".into(), json!(states_total));
+    c.extra_cov.insert("transitions".into(), json!(transitions));
+    c.extra_cov.insert("traces_validated_against_impl".into(), json!(c.agg.evaluations));
+    c.extra_cov.insert("max_depth".into(), json!(depth_done));
+    c.extra_cov.insert("initial_states".into(), json!(inits.iter().map(|i| i.0).collect::<Vec<_>>()));
+    c.extra_cov.insert("levels".into(), json!(per_level));
+    c.extra_cov.insert("unexpanded_frontier".into(), json!(frontier.len()));
+    c.extra_cov.insert("pruned_after_known_finding".into(), json!({"histories_not_executed": pruned, "calls_seen_to_hang": hung_labels}));
+    c.extra_cov.insert("max_live_objects_reached".into(), json!({"archives": max_objs[0], "files": max_objs[1], "finds": max_objs[2]}));
+    let mut per_func: BTreeMap<&str, u64> = BTreeMap::new();
+    for a in &alpha {
+        *per_func.entry(a.func()).or_insert(0) += 1;
+    }
+    c.extra_cov.insert(
+        "axes".into(),
+        json!({"alphabet_calls": alpha.len(), "c_functions": per_func.len(), "calls_per_function": per_func,
+            "handle_selectors": ["first live", "last live", "live handle of another kind", "closed", "purged by archive close", "NULL", "forged max+1", "forged usize::MAX"],
+            "names": NAMES, "masks": MASKS, "hang_timeout_s": HANG_SECS}),
+    );
+    c.agg.samples.extend(samples);
+    c.rule = format!(
+        "state = history of symbolic C-API calls (handle arguments are selectors resolved against the model); every history is replayed in a fresh forked process and extended by every enabled call of the {}-call alphabet; BFS to depth {} from {} initial histories; successors are deduplicated on the canonical key of the model state (live archives with kind/dirty/contents per the shadow Rust API object, live file handles with archive rank/name/reported position, live find handles with mask/progress, which kinds of dead handles exist, files on disk). Every executed history is non-trivial and distinct (key = the call sequence). Only the last call of a history and the end-of-history probe are judged (the prefix was judged when it was the tip). At most 2 live archives / 2 file handles / 2 find handles.",
+        alpha.len(), depth_done, inits.len()
+    );
+    c.assume("model membership is driven only by the C API's own successful open/close returns; the contents come from a shadow Rust-API object per archive handle: wow_mpq::Archive::open on the same path for read-only handles, a wow_mpq::MutableArchive on a byte copy of the freshly created file for SFileCreateArchive2 handles, given the same operation whenever the C call reports success");
+    c.assume("not judged: which error code is set, whether a call on a live handle succeeds (except closing it and the acceptance probe), where an out-of-range seek lands inside [0,len], short reads, mask semantics of SFileEnumFiles beyond '*' and '*.txt', bytes of a file handle whose name was modified after it was opened");
+    c.assume("buffers handed to the API are 8-byte aligned with 64 canary bytes on both sides; SFileGetFileName has no size parameter and is given MAX_PATH (260) bytes");
+    c.assume("the multi-threaded part of C19 (loom) and the valgrind replay named in the plan are separate checks");
+    c.finish();
+}
